@@ -379,4 +379,7 @@ def typed_contexts(T, S):
         ('T-above-i32-inside-block', [blkT, cT(), ci()], [end]),
         ('i32-below-T-block', [ci(), blkT, cT()], [end, lset, drop, lget]),
         ('dead-in-block-then-live', [blk, br0], [end, cT()]),
+        # a construct with ANOTHER non-empty result type has just been closed inside the T-typed block: the outer label must still carry T
+        ('after-nested-i32-block', [blkT, by['block(i32)'], ci(), end, drop], [end]),
+        ('inside-i32-block-in-T-block', [blkT, cT(), by['block(i32)']], [end, drop, end]),
     ]
